@@ -2,7 +2,7 @@
     Statements pinned here; proofs in Egg/Merge.v. *)
 From Coq Require Import List ZArith Bool Permutation.
 Import ListNotations.
-Require Import Verif.gen.MergeArms Verif.Egg.Model Verif.Egg.Merge.
+Require Import Verif.gen.MergeArms Verif.gen.SourceFacts Verif.Egg.Model Verif.Egg.Merge Verif.Egg.Collide.
 
 (** order of arrival does not matter for an associative-commutative merge *)
 Theorem c05_fold_perm : forall (A : Type) (m : A -> A -> A),
@@ -65,6 +65,35 @@ Print Assumptions c05_keys_distinct.
 Theorem c05_nomerge_conflict : forall a b, mconflict MAssertEq a b = negb (val_eqb a b).
 Proof. exact nomerge_conflict. Qed.
 Print Assumptions c05_nomerge_conflict.
+
+(** the collision paths of core-relations/src/table/mod.rs AS WRITTEN NOW ([collision_sites] is
+    regenerated from the source on every run: serial insert with / without sort column, per-shard
+    parallel flush, in-batch staging): every one stores the merged row when the merge reports a
+    change, so on any sequence of writes to one key it keeps the fold of the merge *)
+Theorem c05_every_collision_path_folds : forall s, In s collision_sites ->
+  forall m ws a, fold_left (site_val (snd s) m) ws a = fold_left (zmerge m) ws a.
+Proof. exact every_collision_path_folds. Qed.
+Print Assumptions c05_every_collision_path_folds.
+
+Theorem c05_collision_paths_inventory :
+  forallb (fun s => is_merged (snd s)) collision_sites = true /\ 4 <= List.length collision_sites.
+Proof. exact (conj collision_sites_all_merged collision_sites_count). Qed.
+Print Assumptions c05_collision_paths_inventory.
+
+(** in-batch staging (any listed path) followed by the flush against the stored row (any listed
+    path): the fold of all the batch's writes over the stored value *)
+Theorem c05_staged_batch_value : forall st fl, In st collision_sites -> In fl collision_sites ->
+  forall m, lattice m -> forall ws w0 stored,
+  site_val (snd fl) m stored (fold_left (site_val (snd st) m) ws w0) = fold_left (zmerge m) (w0 :: ws) stored.
+Proof. exact staged_path_value. Qed.
+Print Assumptions c05_staged_batch_value.
+
+(** non-vacuity of the source fact: a path keeping the raw incoming row loses writes under bit-or,
+    and min / max cannot see it *)
+Theorem c05_store_incoming_refuted :
+  fold_left (site_val StoreIncoming MOr) [2; 4]%Z 1%Z <> fold_left (zmerge MOr) [2; 4]%Z 1%Z.
+Proof. exact store_incoming_refuted. Qed.
+Print Assumptions c05_store_incoming_refuted.
 
 (** non-vacuity: min-merge of three writes in two orders, and a collision created by a union *)
 Example c05_example :
